@@ -508,6 +508,16 @@ func (g *gen) rewritePkgRefs(info *types.Info, node ast.Node) ast.Node {
 					return true
 				}
 			}
+			// The scope stack stays empty, because info.Scopes is keyed by the
+			// nodes of the original syntax tree and this walk runs over a
+			// copy. Look the candidate up from the scope that declares the
+			// identifier being renamed: that finds parameters, results and
+			// other names visible where it is declared.
+			if scope := obj.Parent(); scope != nil {
+				if _, other := scope.LookupParent(n, token.NoPos); other != nil {
+					return true
+				}
+			}
 			return false
 		})
 		newNames[obj] = newName
